@@ -25,6 +25,10 @@ class SymUnd(UnDirectedEdge): pass
 class Cable(DirectedEdge): pass
 class Fibre(DirectedEdge): pass
 class Trunk(Cable, Fibre): pass
+class FalsyV(Vertex):
+    """an empty container vertex: its truth value is False"""
+    def __len__(self):
+        return 0
 '''
 
 # scenario: (universe members, outside, [(link class, v1, v2)], vertex classes, option table variant)
@@ -41,6 +45,7 @@ SCENARIOS = {
     "multiple-inheritance": (["a", "b"], [], [("Trunk", "a", "b"), ("Cable", "b", "a")], {"a": "Gateway", "b": "Server"}, "secondary-base"),
     "link-leaves-universe": (["a", "b"], ["x"], [("DirectedEdge", "a", "b"), ("DirectedEdge", "a", "x")], {}, "default"),
     "title-format": (["a", "b"], [], [("DirectedEdge", "a", "b")], {}, "title-format"),
+    "falsy-vertices": (["a", "b", "c"], [], [("DirectedEdge", "a", "b"), ("UnDirectedEdge", "c", "a"), ("DirectedEdge", "c", "c")], {"a": "FalsyV", "c": "FalsyV"}, "default"),
 }
 
 
@@ -100,12 +105,19 @@ def run(ctx):
     h.w.unordered_sort_ok = True
     fn = h.fn(FN)
     n = 0
-    for name, (members, outside, links, vclasses, variant) in SCENARIOS.items():
+    g0 = h.w.load_text("verif_c14", SRC).globals     # the harness classes persist across scenarios
+    h.w.snapshot()
+    runs = [(name, True) for name in SCENARIOS]
+    # second pass: consecutive renders in one interpreter state (no reset of module-level state between them), option tables
+    # ordered from the default to the more specific ones - a render must not depend on what an earlier render configured
+    order = ["subclasses-default-table", "subclass-configured", "multiple-inheritance", "one-directed", "title-format", "subclasses-default-table"]
+    runs += [(name, False) for name in order]
+    for name, fresh in runs:
+        members, outside, links, vclasses, variant = SCENARIOS[name]
         try:
-            h.reset()
-            g = h.w.load_text("verif_c14", SRC).globals
-            h.w.mods.pop("verif_c14", None)
-            g = dict(g)
+            if fresh:
+                h.reset()
+            g = dict(g0)
             g.update({k: h.S[k] for k in ("Vertex", "DirectedEdge", "UnDirectedEdge")})
             V = {}
             for v in members + outside:
@@ -126,9 +138,9 @@ def run(ctx):
             continue
         n += 1
         why = check(h, out, members, outside, links, V, L, opts, variant)
-        res.ob(why is None, sig=(name,), sample={"scenario": name, "members": members, "links": links, "options": variant})
+        res.ob(why is None, sig=(name, fresh), sample={"scenario": name, "members": members, "links": links, "options": variant, "after_earlier_renders": not fresh})
         if why:
-            res.violation("PUML", FN, f"scenario={name}", f"scenario {name} (members {members}, links {links}, option table {variant}): {why}", replay=replay(name))
+            res.violation("PUML", FN, f"scenario={name}" + ("" if fresh else ",after-earlier-renders-with-other-option-tables"), f"scenario {name} (members {members}, links {links}, option table {variant}): {why}", replay=replay(name))
     # empty universe
     h.reset()
     U = h.new("Universe", "U")
@@ -144,7 +156,7 @@ def run(ctx):
         res.undecide(f"{FN} on an empty universe: {u}")
     res.rule("PUML", n)
     resolve_rule(ctx, h, res)
-    common.vacuity(res, "PUML", 12)
+    common.vacuity(res, "PUML", 19)
     res.analysed = common.analysed(ctx, [FN, "edgegraph.output.plantuml._one_link_to_puml", "edgegraph.output.plantuml._one_vert_to_puml", "edgegraph.output.plantuml._resolve_options", "edgegraph.output.plantuml._vertex_title"])
     res.explanation = ("In every scenario the derived text declares each member once under its configured title and type and contains exactly one correctly oriented relation line per internal "
                        "link; the declaration loop and the relation loop treat every element alike, which extends the result to universes of any size.")
@@ -238,8 +250,7 @@ def resolve_rule(ctx, h, res):
     """_resolve_options: nearest configured class along the MRO; ValueError when none."""
     f = h.fn("edgegraph.output.plantuml._resolve_options")
     h.reset()
-    g = h.w.load_text("verif_c14b", SRC).globals
-    h.w.mods.pop("verif_c14b", None)
+    g = h.w.mods["verif_c14"].globals
     h.settle()
     Vx = h.S["Vertex"]
     cases = [("Gateway", ["Router", "Vertex"], "Router"), ("Gateway", ["Vertex"], "Vertex"), ("Gateway", ["Server", "Router"], "Server"), ("SymVert", ["Vertex"], "Vertex"),
